@@ -13,8 +13,8 @@ replayed step by step.  The system mailbox is always empty here (no control mess
 The ready queue is abstracted to the number `rq` of entries for this actor (all rings together).
 
 Threads: senders (`t<k>` = Tell message k), dispatcher workers (`w<i>` = one take-and-run-turn
-attempt), and a restart thread (`r`, first op only: Shutdown happens before its first point; then the
-wait loop, init, the restart counter and its own PostStart message, id 0).
+attempt), and a restart thread (`r`, first op only: `Load:restartCount` snapshot, whose step also performs the
+Shutdown; then the wait loop, init, `Store:restartCount` and its own PostStart message, id 0).
 -/
 namespace GoaktVerif.Model.C01
 
@@ -44,7 +44,7 @@ inductive PC where
   | wRetake (b : Nat)
   | wYield | wResched
   -- restart thread
-  | rWait | rCount
+  | rLoad | rWait | rCount
   deriving Repr, DecidableEq
 
 /-- thread operations: `t<k>` Tell message k, `w<i>` one take-and-run-turn attempt, `r` Restart -/
@@ -90,7 +90,7 @@ def label : PC → String
   | .wTs1 _ => "Load:v" | .wTs2 _ => "CAS:v"
   | .wRetake _ => "CAS:v"
   | .wYield => "Store:v" | .wResched => "Call:reschedule"
-  | .rWait => "Load:v" | .rCount => "Add:restartCount"
+  | .rLoad => "Load:restartCount" | .rWait => "Load:v" | .rCount => "Store:restartCount"
 
 /-- Begin operation `op` in shared state `s`: either it completes at once with a result (no
     schedule point inside), or the thread parks at the operation's first point.
@@ -163,7 +163,9 @@ def exec (s : Shared) (t : Thread) (others : Nat) : PC → Shared × Thread
   | .wRetake b => if s.sched = .scheduled then ({ s with sched := .processing }, { t with pc := some (nextIter b) }) else (s, finishOp s t "turn")
   | .wYield => ({ s with sched := .scheduled }, { t with pc := some .wResched })
   | .wResched => let s' := { s with rq := s.rq + 1 }; (s', finishOp s' t "turn")
-  -- restart thread: wait loop, then init (actor runs again); restart counter; PostStart = message 0
+  -- restart thread: counter snapshot, then Shutdown (the actor stops running); wait loop, then init
+  -- (actor runs again); restart counter; PostStart = message 0
+  | .rLoad => ({ s with running := false }, { t with pc := some .rWait })
   | .rWait => if s.sched = .processing then (s, t) else ({ s with running := true }, { t with pc := some .rCount })
   | .rCount => (s, { t with pc := some (.sE0 0) })
 
@@ -182,14 +184,14 @@ def step (c : Cfg) (tid : Nat) : String × Cfg :=
       let (s', t') := exec c.sh t others pc
       (label pc, { sh := s', threads := c.threads.set tid t' })
 
-/-- spawn the threads in tid order; each runs to its first point.  `r` (first op only) performs
-    Shutdown before its first point: the actor stops running. -/
+/-- spawn the threads in tid order; each runs to its first point.  `r` (first op only) parks at its
+    first point, the restart-counter snapshot. -/
 def spawn (s : Shared) : List (List Op) → Shared × List Thread
   | [] => (s, [])
   | prog :: rest =>
     let (s1, t) :=
       match prog with
-      | .restart :: ops => ({ s with running := false }, ({ pc := some .rWait, prog := ops, results := [] } : Thread))
+      | .restart :: ops => (s, ({ pc := some .rLoad, prog := ops, results := [] } : Thread))
       | _ => (s, nextOp s prog [])
     let (s2, ts) := spawn s1 rest
     (s2, t :: ts)
